@@ -23,6 +23,9 @@ def run(ctx: Ctx):
     blocks(ctx)
     defective(ctx)
     pvalues(ctx)
+    from .common import no_shared_writes
+
+    no_shared_writes(ctx, "no-shared-write")
 
 
 def formula(ctx: Ctx):
